@@ -1,6 +1,6 @@
 import AbtemVerif.Model.Proto
-import AbtemVerif.Model.Distributions
-open AbtemVerif AbtemVerif.Proto AbtemVerif.Distributions
+import AbtemVerif.Model.ParamEnsemble
+open AbtemVerif AbtemVerif.Proto AbtemVerif.ParamEnsemble
 
 /- requests; args are separated by `|`, each `s<int>` (scalar) or `d<values>;<weights>` (int lists)
    shape  <args>            → ensemble shape
